@@ -14,6 +14,7 @@
    C01_resolved_when_quiescent_refuted_build_raises). *)
 From AV Require Import Base.Util Model.Producer Model.ProducerCompose Proofs.ProducerC01Spec Proofs.ProducerC01Thm
   Proofs.ProducerC01Compose.
+From AV Require Proofs.ProducerInv Proofs.ProducerProgress.
 
 (* No send fires twice: the ids that received an outcome, in firing order, are pairwise distinct. *)
 Theorem C01_at_most_once : forall c has_t api0 cache0 evs s tr,
@@ -162,6 +163,52 @@ Theorem C01_composed_none_truthful : forall c has_t api0 cache0 ces s lg tr tr1 
 Proof. intros c h a ca ces s lg tr tr1 e outs tr2 sid H E I. eapply composed_none; eauto. Qed.
 Print Assumptions C01_composed_none_truthful.
 
+(* ---- bounded progress of the batch in flight (Proofs/ProducerProgress.v) ----
+   owed c s e: the events the environment owes the producer in state s - the answer of a pending metadata load, an
+   armed retry timer, the API-version answer, an in-contract result of the request in flight.  mu c s: a measure on
+   states with a batch in flight, at most mu_bound c n = n * (2m + 2) + 2m + 2 for a batch of n sends and attempt
+   limit m.  count_owed c s evs: how many events of evs were owed in the state they arrived in. *)
+
+(* No deadlock: while a batch is in flight the producer always waits for something an honest environment can deliver. *)
+Theorem C01_no_deadlock : forall c has_t api0 cache0 evs s tr,
+  honest evs -> run c (init_state has_t api0 cache0) evs = (s, tr) -> ph s <> Idle ->
+  exists e, ProducerProgress.owed c s e = true /\ honest_ev e = true.
+Proof. exact ProducerProgress.no_deadlock. Qed.
+Print Assumptions C01_no_deadlock.
+
+(* Every honest event that arrives while a batch is in flight ends the batch or leaves the measure no larger; an owed
+   event decreases it by at least one. *)
+Theorem C01_owed_event_progress : forall c has_t api0 cache0 evs s tr e s' out,
+  honest (evs ++ [e]) -> run c (init_state has_t api0 cache0) evs = (s, tr) -> ph s <> Idle -> step c s e = (s', out) ->
+  In OBatchDone out \/
+  (ph s' <> Idle /\ ProducerProgress.mu c s' + (if ProducerProgress.owed c s e then 1 else 0) <= ProducerProgress.mu c s).
+Proof. exact ProducerProgress.owed_progress. Qed.
+Print Assumptions C01_owed_event_progress.
+
+(* Eventually resolved.  For every honest continuation evs2 of a run with a batch in flight: either the batch has
+   ended and EVERY send in it has fired, or the batch is still in flight and fewer than mu_bound owed events have
+   been delivered so far.  Fairness - the environment keeps delivering what it owes - is a premise about the event
+   list and is NOT proved of any environment; without it (a client that never answers) nothing fires, in the model
+   as in the code. *)
+Theorem C01_eventually_resolved : forall c has_t api0 cache0 evs1 evs2 s1 tr1 s2 tr2,
+  honest (evs1 ++ evs2) -> run c (init_state has_t api0 cache0) evs1 = (s1, tr1) -> run c s1 evs2 = (s2, tr2) ->
+  ph s1 <> Idle ->
+  (In OBatchDone (outs_of tr2) /\
+   forall x, In x (ProducerInv.batch_sends (ph s1)) -> In (s_id x) (fired (tr1 ++ tr2))) \/
+  (ph s2 <> Idle /\
+   ProducerProgress.count_owed c s1 evs2 < ProducerProgress.mu_bound c (Z.of_nat (length (ProducerInv.batch_sends (ph s1))))).
+Proof. exact ProducerProgress.eventually_resolved. Qed.
+Print Assumptions C01_eventually_resolved.
+
+(* The same with the fairness premise as a hypothesis: after mu_bound owed events every send of the batch has fired. *)
+Theorem C01_resolved_within : forall c has_t api0 cache0 evs1 evs2 s1 tr1 s2 tr2,
+  honest (evs1 ++ evs2) -> run c (init_state has_t api0 cache0) evs1 = (s1, tr1) -> run c s1 evs2 = (s2, tr2) ->
+  ph s1 <> Idle ->
+  ProducerProgress.mu_bound c (Z.of_nat (length (ProducerInv.batch_sends (ph s1)))) <= ProducerProgress.count_owed c s1 evs2 ->
+  forall x, In x (ProducerInv.batch_sends (ph s1)) -> In (s_id x) (fired (tr1 ++ tr2)).
+Proof. exact ProducerProgress.resolved_within. Qed.
+Print Assumptions C01_resolved_within.
+
 (* ---- non-vacuity: concrete runs reaching the situations the theorems speak about ---- *)
 Definition cfg1 (acks mx : Z) := {| c_acks := acks; c_n := 1; c_b := 1; c_max := mx |}.
 Definition st1 := init_state false 1 [(0, (0, true))].
@@ -205,3 +252,28 @@ Example ex_composed :
   fired tr = [0; 1] /\ In (OOutcome 0 (OResp 0 0 0 0)) (outs_of tr) /\ In (OOutcome 1 (OResp 0 0 0 3)) (outs_of tr) /\
   log_of lg (0, 0) = [(0, 0); (0, 1); (1, 0); (1, 0)].
 Proof. vm_compute. repeat split; auto 20. Qed.
+
+(* progress: a batch of one send, attempt limit 2: measure 3 once the request is out (bound 12); each owed event lowers it
+   (result NotLeader -> 2, retry timer -> 1), an event that is not owed (a tick, a stale timer) does not;
+   the second result ends the batch after 3 owed events *)
+Example ex_progress :
+  let '(s1, tr1) := run (cfg1 1 2) st1 [ESend 0 0 1 5] in
+  let evs2 := [EResult (VResp [((0, 0), 6, -1)]); ETick; ETimer 7; EMetaSet 0 0 true; ETimer 0; EResult (VResp [((0, 0), 6, -1)])] in
+  let '(s2, tr2) := run (cfg1 1 2) s1 evs2 in
+  ProducerProgress.mu (cfg1 1 2) s1 = 3 /\ ProducerProgress.mu_bound (cfg1 1 2) 1 = 12 /\
+  map (fun n => ProducerProgress.mu (cfg1 1 2) (fst (run (cfg1 1 2) s1 (firstn n evs2)))) [1; 2; 3; 4; 5]%nat = [2; 2; 2; 2; 1] /\
+  ProducerProgress.count_owed (cfg1 1 2) s1 evs2 = 3 /\ In OBatchDone (outs_of tr2) /\ fired (tr1 ++ tr2) = [0] /\ ph s2 = Idle.
+Proof. vm_compute. repeat split; auto 10. Qed.
+
+(* progress through the metadata phase: topic 1 is unknown, its metadata load fails (measure 10 -> 6), the API-version
+   answer arrives, the send FAILS with the lookup error: 2 owed events (bound 12) *)
+Example ex_progress_lookup :
+  let st := init_state false 0 [(0, (0, true))] in
+  let '(s1, tr1) := run (cfg1 1 2) st [ESend 1 0 1 5] in
+  let evs2 := [ELoadDone 0 false 3; ETick; EVersion 1] in
+  let '(s2, tr2) := run (cfg1 1 2) s1 evs2 in
+  ProducerProgress.mu (cfg1 1 2) s1 = 10 /\
+  map (fun n => ProducerProgress.mu (cfg1 1 2) (fst (run (cfg1 1 2) s1 (firstn n evs2)))) [1; 2]%nat = [6; 6] /\
+  ProducerProgress.count_owed (cfg1 1 2) s1 evs2 = 2 /\ In (OOutcome 0 (OFail 3 0)) (outs_of tr2) /\
+  In OBatchDone (outs_of tr2) /\ ph s2 = Idle.
+Proof. vm_compute. repeat split; auto 10. Qed.
